@@ -15,3 +15,5 @@ CONSTANTS
   Helper = FALSE
   GuardLate = FALSE
   MaxFaults = 0
+  Panics = FALSE
+  SilentUnwind = FALSE
